@@ -29,9 +29,10 @@ type GroupCfg struct {
 
 // Pkt is one data packet of group G arriving in a tick; D = frames x channels values, frame-major.
 type Pkt struct {
-	G  int     `json:"g"`
-	SN int64   `json:"sn"`
-	D  []int32 `json:"d"`
+	G    int     `json:"g"`
+	SN   int64   `json:"sn"`
+	D    []int32 `json:"d"`
+	NoTS bool    `json:"nots,omitempty"` // the packet carries no time stamp (16 bytes less header)
 }
 
 // Tick is what arrives between two reads of the reader loop, in arrival order.
@@ -45,6 +46,11 @@ type Case struct {
 	Groups []GroupCfg `json:"groups"`
 	Ops    []Tick     `json:"ops"`
 	Note   string     `json:"note,omitempty"`
+	// Rings lists the producers that are REAL AbacoRing devices: their packets travel as bytes through a
+	// shared-memory ring (padded to whole 8192-byte slots) and AbacoRing.ReadAllPackets.
+	Rings []int `json:"rings,omitempty"`
+	// Pre are earlier runs on the SAME AbacoSource object, each ended by a Stop before the next Start.
+	Pre []Case `json:"pre,omitempty"`
 }
 
 // ---------------------------------------------------------------- generation
@@ -232,6 +238,13 @@ func genCase(r *lib.Rng, id int64, tier string) Case {
 			perTick[ts[i]][g] = append(perTick[ts[i]][g], Pkt{G: g, SN: sn, D: payload(r, fpp, gc.Nchan, gc.Wide)})
 		}
 	}
+	if r.Chance(1, 7) { // some producers are real rings
+		for pr := 0; pr < nprod; pr++ {
+			if r.Bool() || pr == 0 {
+				c.Rings = append(c.Rings, pr)
+			}
+		}
+	}
 	// within a tick, interleave the groups' packets at random (order within a group is kept)
 	for t := range perTick {
 		idx := make([]int, ngroups)
@@ -323,6 +336,117 @@ func longBurst(r *lib.Rng, burst int64, kind int) Case {
 	return c
 }
 
+// endPending appends a tick that leaves a filled-in gap unreported: a group that is not the one
+// everybody waits for receives a packet beyond a gap while the slowest group stays silent, so the
+// tick is abandoned with the fill counted.  Needs at least two groups.
+func endPending(r *lib.Rng, c *Case) bool {
+	if len(c.Groups) < 2 {
+		return false
+	}
+	a := analyse(*c)
+	m := 0
+	for g := range c.Groups {
+		if a.last[g]-a.sync[g] < a.last[m]-a.sync[m] {
+			m = g
+		}
+	}
+	if a.last[m]-a.sync[m] > a.consumed {
+		return false
+	}
+	g := (m + 1 + r.Intn(len(c.Groups)-1)) % len(c.Groups)
+	gc := c.Groups[g]
+	sn := a.last[g] + 2 + int64(r.Intn(3))
+	c.Ops = append(c.Ops, Tick{P: []Pkt{{G: g, SN: sn, D: payload(r, c.Fpp, gc.Nchan, gc.Wide)}}})
+	if r.Bool() {
+		c.Ops = append(c.Ops, Tick{})
+	}
+	return true
+}
+
+// restartCase: one or two earlier runs on the same source object, then the run proper.
+func restartCase(r *lib.Rng, id int64, tier string) Case {
+	c := genCase(r.Fork(), id, tier)
+	npre := r.Range(1, 2)
+	for k := 0; k < npre; k++ {
+		pc := genCase(r.Fork(), 0, "quick")
+		for len(pc.Groups) < 2 {
+			pc = genCase(r.Fork(), 0, "quick")
+		}
+		if len(pc.Ops) > 5 {
+			pc.Ops = pc.Ops[:5]
+		}
+		if r.Chance(3, 4) {
+			endPending(r, &pc)
+		}
+		c.Pre = append(c.Pre, pc)
+	}
+	if r.Chance(1, 3) { // a run that loses nothing: any reported drop is a phantom
+		c2 := c
+		c2.Ops = nil
+		a := analyse(c2)
+		nt := r.Range(2, 4)
+		c.Ops = make([]Tick, nt)
+		for g, gc := range c.Groups {
+			sn := a.last[g] + 1
+			for t := 0; t < nt; t++ {
+				for k := 0; k < r.Range(0, 2); k++ {
+					c.Ops[t].P = append(c.Ops[t].P, Pkt{G: g, SN: sn, D: payload(r, c.Fpp, gc.Nchan, gc.Wide)})
+					sn++
+				}
+			}
+		}
+	}
+	return c
+}
+
+// slotCase: packets travelling through a real shared-memory ring whose 8192-byte slot they fill
+// exactly (56 bytes of header with a time stamp + 8136 bytes of payload), or miss by the 16 bytes of the
+// time stamp, or fill only half of (a second group with half the channels).  kind 0: every packet
+// fills its slot; 1: run packets without time stamp (8176 bytes); 2: both kinds mixed, and a second
+// group with short packets in the same ring.
+func slotCase(r *lib.Rng, kind int) Case {
+	type lay struct {
+		nchan, fpp int
+		wide       bool
+	}
+	lays := []lay{{4, 1017, false}, {2, 2034, false}, {3, 1356, false}, {6, 678, false}, {1, 2034, true}, {2, 1017, true}, {3, 678, true}}
+	l := lays[r.Intn(len(lays))]
+	if kind == 2 {
+		l = []lay{{4, 1017, false}, {2, 1017, true}, {6, 678, false}}[r.Intn(3)]
+	}
+	c := Case{Fpp: l.fpp, Note: fmt.Sprintf("ring slot kind %d", kind), Rings: []int{0}}
+	base := int64(r.Pick([]int{1, 11, 5000}))
+	c.Groups = []GroupCfg{{Off: 0, Nchan: l.nchan, Wide: l.wide, Sample: [][2]int64{{base, 1}, {base + 1, 1}, {base + 2, 1}}}}
+	if kind == 2 {
+		c.Groups = append(c.Groups, GroupCfg{Off: l.nchan + 2, Nchan: l.nchan / 2, Wide: l.wide, Prod: r.Intn(2),
+			Sample: [][2]int64{{base, 1}, {base + 1, 1}}})
+	}
+	npk := r.Range(5, 7)
+	if kind == 2 {
+		npk = 4
+	}
+	nt := 3
+	c.Ops = make([]Tick, nt)
+	for g, gc := range c.Groups {
+		last := gc.Sample[len(gc.Sample)-1][0]
+		lose := int64(-1)
+		if r.Chance(1, 2) {
+			lose = last + 1 + int64(r.Intn(npk))
+		}
+		for k := 0; k < npk; k++ {
+			sn := last + 1 + int64(k)
+			if sn == lose {
+				continue
+			}
+			p := Pkt{G: g, SN: sn, D: payload(r, l.fpp, gc.Nchan, gc.Wide)}
+			p.NoTS = kind == 1 || (kind == 2 && k%2 == 1)
+			t := k * nt / npk
+			c.Ops[t].P = append(c.Ops[t].P, p)
+		}
+	}
+	return c
+}
+
 func corpus() []Case {
 	s12 := [][2]int64{{1, 1}, {2, 1}}
 	var out []Case
@@ -361,6 +485,16 @@ func corpus() []Case {
 	for i := 0; i < 3; i++ {
 		out = append(out, two, four, drop)
 	}
+	// (3b) restart of the same source after a run that ended with a filled-in gap not yet reported:
+	// the second run loses nothing and must report no dropped frame
+	s56 := [][2]int64{{3, 1}, {4, 1}}
+	s100 := [][2]int64{{103, 1}, {104, 1}}
+	out = append(out, Case{Fpp: 5, Note: "restart after unreported fill",
+		Pre: []Case{{Fpp: 5, Groups: []GroupCfg{{Off: 0, Nchan: 2, Sample: s56}, {Off: 2, Nchan: 3, Sample: s56}},
+			Ops: []Tick{cat(seqp(0, 2, 5, 5, 6), seqp(1, 3, 5, 5, 6)), cat(seqp(0, 2, 5, 8, 9)), {}}}},
+		Groups: []GroupCfg{{Off: 0, Nchan: 2, Sample: s100}, {Off: 2, Nchan: 3, Sample: s100}},
+		Ops: []Tick{cat(seqp(0, 2, 5, 105, 106), seqp(1, 3, 5, 105)), cat(seqp(1, 3, 5, 106, 107), seqp(0, 2, 5, 107)),
+			cat(seqp(0, 2, 5, 108, 109), seqp(1, 3, 5, 108, 109))}})
 	// (4) one group: no loss; loss of the first / last packet of a batch; empty ticks
 	out = append(out, Case{Fpp: 4, Groups: []GroupCfg{{Off: 0, Nchan: 3, Sample: [][2]int64{{10, 1}, {11, 1}, {12, 1}}}},
 		Ops: []Tick{cat(seqp(0, 3, 4, 13, 14)), {}, cat(seqp(0, 3, 4, 15)), {}, {}, cat(seqp(0, 3, 4, 16, 17, 18))}})
@@ -392,7 +526,7 @@ func corpus() []Case {
 
 func gen(seed uint64, tier string) []interface{} {
 	r := lib.NewRng(seed)
-	n := 280
+	n := 250
 	if tier == "thorough" {
 		n = 3000
 	}
@@ -409,7 +543,21 @@ func gen(seed uint64, tier string) []interface{} {
 		bursts = append(bursts, [][2]int{{4097, 1}, {70000, 0}, {65536 + r.Intn(100), 2}, {r.Range(5000, 70000), 0},
 			{r.Range(5000, 70000), 1}, {r.Range(5000, 70000), 2}}...)
 	}
+	nrestart, slots := 24, []int{0, 2}
+	if tier == "thorough" {
+		nrestart, slots = 250, []int{0, 1, 2, 0, 1, 2, 0, 2}
+	}
 	for i := 0; i < n; i++ {
+		if i%(n/nrestart) == 1 {
+			out = append(out, restartCase(r.Fork(), id, tier))
+			id++
+		}
+		if k := i - n/2; k >= 0 && k < len(slots) {
+			sc := slotCase(r.Fork(), slots[k])
+			sc.ID = id
+			id++
+			out = append(out, sc)
+		}
 		if k := i - n/3; k >= 0 && k < len(bursts) {
 			lb := longBurst(r.Fork(), int64(bursts[k][0]), bursts[k][1])
 			lb.ID = id
@@ -477,6 +625,9 @@ func inputTerm(c Case) (string, string) {
 
 type spec struct { // what the harness works out about the INPUT, for tags only
 	lost, leftover, leftoverThenGap, misaligned, emptyTick, lag, longBurst bool
+	pendingAtEnd                                                           int64   // lost packets counted in ticks after the last delivered block
+	last, sync                                                             []int64 // per group, at the end of the script
+	consumed                                                               int64   // global sequence number delivered so far
 }
 
 func analyse(c Case) spec {
@@ -517,6 +668,7 @@ func analyse(c Case) spec {
 			}
 			if p.SN > last[p.G]+1 {
 				s.lost = true
+				s.pendingAtEnd += p.SN - last[p.G] - 1
 				if queued[p.G] {
 					s.leftoverThenGap = true
 				}
@@ -539,6 +691,7 @@ func analyse(c Case) spec {
 		}
 		if av > C {
 			C = av
+			s.pendingAtEnd = 0
 		}
 		for g := range c.Groups {
 			queued[g] = last[g]-sync[g] > C
@@ -547,6 +700,7 @@ func analyse(c Case) spec {
 			}
 		}
 	}
+	s.last, s.sync, s.consumed = last, sync, C
 	return s
 }
 
@@ -577,10 +731,50 @@ func tagsOf(c Case) ([]string, bool) {
 	add(s.emptyTick, "empty-tick")
 	add(s.lag, "group-without-data-in-a-tick")
 	add(s.longBurst, "loss-burst-over-4096-packets")
+	add(len(c.Rings) > 0, "real-ring-producer")
+	if len(c.Rings) > 0 {
+		for _, gc := range c.Groups {
+			isRing := false
+			for _, pr := range c.Rings {
+				isRing = isRing || pr == gc.Prod
+			}
+			hdr := 56
+			wl := 2
+			if gc.Wide {
+				wl = 4
+			}
+			for _, t := range c.Ops {
+				for _, p := range t.P {
+					h := hdr
+					if p.NoTS {
+						h -= 16
+					}
+					if isRing && p.G >= 0 && p.G < len(c.Groups) && c.Groups[p.G].Off == gc.Off {
+						add(h+wl*len(p.D) == 8192 && !has(tags, "packet-fills-ring-slot"), "packet-fills-ring-slot")
+					}
+				}
+			}
+		}
+	}
+	add(len(c.Pre) > 0, "restart-of-the-same-source")
+	for _, pc := range c.Pre {
+		if analyse(pc).pendingAtEnd > 0 && !has(tags, "restart-after-unreported-fill") {
+			tags = append(tags, "restart-after-unreported-fill")
+		}
+	}
 	if c.Note != "" {
 		tags = append(tags, "corpus:"+strings.ReplaceAll(c.Note, " ", "-"))
 	}
 	return tags, s.lost && s.leftover
+}
+
+func has(tags []string, t string) bool {
+	for _, x := range tags {
+		if x == t {
+			return true
+		}
+	}
+	return false
 }
 
 func hashOf(c Case) string {
@@ -588,7 +782,9 @@ func hashOf(c Case) string {
 		F int
 		G []GroupCfg
 		O []Tick
-	}{c.Fpp, c.Groups, c.Ops})
+		R []int
+		P []Case
+	}{c.Fpp, c.Groups, c.Ops, c.Rings, c.Pre})
 }
 
 func sanitize(c *Case) error {
@@ -622,8 +818,68 @@ func runOnce(c Case) (lib.Result, error) {
 	if err := sanitize(&c); err != nil {
 		return lib.Result{}, err
 	}
+	for i := range c.Pre {
+		if err := sanitize(&c.Pre[i]); err != nil {
+			return lib.Result{}, err
+		}
+	}
 	res := lib.Result{ID: c.ID, Hash: hashOf(c)}
 	res.Tags, res.NonTrivial = tagsOf(c)
+	var run *dastard.VerifAbacoRun
+	var preTerms []string
+	var allBlocks [][]dastard.VerifAbacoBlock
+	scripts := append(append([]Case(nil), c.Pre...), c)
+	for k, sc := range scripts {
+		sc.ID = c.ID
+		blocks, err := runScript(&run, sc)
+		if err != nil {
+			return res, err
+		}
+		allBlocks = append(allBlocks, blocks)
+		t := caseTerm(sc, blocks)
+		if k < len(scripts)-1 {
+			preTerms = append(preTerms, t)
+		} else if len(preTerms) > 0 {
+			res.Term = "after [" + strings.Join(preTerms, ";\n ") + "]\n (" + t + ")"
+		} else {
+			res.Term = t
+		}
+	}
+	heavy := false
+	for _, sc := range scripts {
+		if span(sc) > 2000 || volume(sc) > 12000 {
+			heavy = true
+		}
+	}
+	if heavy {
+		res.Heavy = true
+		var ci []interface{}
+		for _, b := range allBlocks {
+			ci = append(ci, compactImpl(b))
+		}
+		res.Impl = ci
+	} else if len(allBlocks) == 1 {
+		res.Impl = allBlocks[0]
+	} else {
+		res.Impl = allBlocks
+	}
+	return res, nil
+}
+
+// volume is the number of payload values a script carries.
+func volume(c Case) int {
+	n := 0
+	for _, t := range c.Ops {
+		for _, p := range t.P {
+			n += len(p.D)
+		}
+	}
+	return n
+}
+
+// runScript runs one script: on a fresh AbacoSource when *run is nil, else as a restart of the same
+// object (the previous run was stopped).  The run is stopped before it returns.
+func runScript(run **dastard.VerifAbacoRun, c Case) ([]dastard.VerifAbacoBlock, error) {
 	nprod := 0
 	for _, g := range c.Groups {
 		if g.Prod+1 > nprod {
@@ -633,6 +889,29 @@ func runOnce(c Case) (lib.Result, error) {
 	prods := make([]*dastard.VerifScriptedProducer, nprod)
 	for i := range prods {
 		prods[i] = &dastard.VerifScriptedProducer{Batches: make([][]*packets.Packet, len(c.Ops))}
+	}
+	var rings []*dastard.VerifRing
+	defer func() {
+		for _, r := range rings {
+			r.Remove()
+		}
+	}()
+	for _, pr := range c.Rings {
+		if pr < 0 || pr >= nprod {
+			continue
+		}
+		most := len(c.Groups) * 8
+		for _, t := range c.Ops {
+			if len(t.P) > most {
+				most = len(t.P)
+			}
+		}
+		r, err := dastard.VerifNewRing(most + 8)
+		if err != nil {
+			return nil, fmt.Errorf("case %d: ring: %v", c.ID, err)
+		}
+		rings = append(rings, r)
+		prods[pr].Ring = r
 	}
 	stamp := func(g int, sn int64) uint64 {
 		base := c.Groups[g].Sample[0][0]
@@ -646,7 +925,7 @@ func runOnce(c Case) (lib.Result, error) {
 			}
 			p, err := dastard.VerifMakeAbacoPacket(gc.Off, gc.Nchan, uint32(s[0]), gc.Wide, make([]int32, c.gfpp(g)*gc.Nchan), ts, tsRate)
 			if err != nil {
-				return res, err
+				return nil, err
 			}
 			prods[gc.Prod].Sampled = append(prods[gc.Prod].Sampled, p)
 		}
@@ -657,34 +936,49 @@ func runOnce(c Case) (lib.Result, error) {
 				continue
 			}
 			gc := c.Groups[pk.G]
-			p, err := dastard.VerifMakeAbacoPacket(gc.Off, gc.Nchan, uint32(pk.SN), gc.Wide, pk.D, stamp(pk.G, pk.SN), tsRate)
+			ts := stamp(pk.G, pk.SN)
+			if pk.NoTS {
+				ts = 0
+			}
+			p, err := dastard.VerifMakeAbacoPacket(gc.Off, gc.Nchan, uint32(pk.SN), gc.Wide, pk.D, ts, tsRate)
 			if err != nil {
-				return res, err
+				return nil, err
 			}
 			prods[gc.Prod].Batches[t] = append(prods[gc.Prod].Batches[t], p)
 		}
 	}
-	run, err := dastard.VerifNewAbacoRun(prods)
-	if err != nil {
-		return res, fmt.Errorf("case %d: %v", c.ID, err)
+	var err error
+	if *run == nil {
+		*run, err = dastard.VerifNewAbacoRun(prods)
+	} else {
+		err = (*run).Restart(prods)
 	}
+	if err != nil {
+		return nil, fmt.Errorf("case %d: %v", c.ID, err)
+	}
+	r := *run
 	// the groups must be known to the source in the order the case lists them
-	keys, _ := run.GroupKeys()
+	keys, _ := r.GroupKeys()
 	if len(keys) != len(c.Groups) {
-		return res, fmt.Errorf("case %d: %d groups found, %d scripted", c.ID, len(keys), len(c.Groups))
+		r.Close()
+		return nil, fmt.Errorf("case %d: %d groups found, %d scripted", c.ID, len(keys), len(c.Groups))
 	}
 	for i, k := range keys {
 		if k.Firstchan != c.Groups[i].Off || k.Nchan != c.Groups[i].Nchan {
-			return res, fmt.Errorf("case %d: group %d is %v, scripted (%d,%d)", c.ID, i, k, c.Groups[i].Off, c.Groups[i].Nchan)
+			r.Close()
+			return nil, fmt.Errorf("case %d: group %d is %v, scripted (%d,%d)", c.ID, i, k, c.Groups[i].Off, c.Groups[i].Nchan)
 		}
 	}
-	if err := run.WaitScript(20 * time.Second); err != nil {
-		run.Close()
-		return res, fmt.Errorf("case %d: %v", c.ID, err)
+	if err := r.WaitScript(20 * time.Second); err != nil {
+		r.Close()
+		return nil, fmt.Errorf("case %d: %v", c.ID, err)
 	}
-	blocks := run.Blocks()
-	run.Close()
+	blocks := r.Blocks()
+	r.Close()
+	return blocks, nil
+}
 
+func caseTerm(c Case, blocks []dastard.VerifAbacoBlock) string {
 	gterm, tterm := inputTerm(c)
 	var bs []string
 	for _, b := range blocks {
@@ -698,13 +992,7 @@ func runOnce(c Case) (lib.Result, error) {
 		}
 		bs = append(bs, fmt.Sprintf("B %s %s", lib.Z(ns), lib.List(ss)))
 	}
-	res.Term = fmt.Sprintf("mk %d %s\n  %s\n  %s", c.Fpp, gterm, tterm, "["+strings.Join(bs, ";\n   ")+"]")
-	res.Impl = blocks
-	if span(c) > 2000 {
-		res.Heavy = true
-		res.Impl = compactImpl(blocks)
-	}
-	return res, nil
+	return fmt.Sprintf("mk %d %s\n  %s\n  %s", c.Fpp, gterm, tterm, "["+strings.Join(bs, ";\n   ")+"]")
 }
 
 // rleTerm renders sample data as a Coq list; constant runs of 24 or more samples (filler for a long
